@@ -19,7 +19,7 @@
      content octets `c` parse by the BER grammar, with fuel `f`, into the values `ts` — either
      exactly (`parseAll`) or followed by one end-of-contents marker that ends `c`
      (`parseUntilEoc … = some (ts, [])`: the shape the BER capture of an indefinite-length value
-     has, finding D12) — and that all of `ts` are OCTET STRING values, primitive or constructed of
+     had before the repair of D12; accepted values now always have the first shape) — and that all of `ts` are OCTET STRING values, primitive or constructed of
      such to any depth (`Spec.osContent 4 f t` is defined).  For every such `c`:
        segments (.cons c) = ok (the primitive leaves `ts.flatMap (osSegments f)`, every one of
                                them, empty ones included, in encoding order)
@@ -41,7 +41,7 @@
 
   4. Re-encoding (`write_der`, `write_der_ok`, `write_der_excessive`, `encodedLen_der_ok`,
      `write_ber_prim`, `write_ber_cons`, `encodedLen_ber_cons`, `write_cer`,
-     `reencode_der_wellformed`, `reencode_ber_wellformed_partial`, `reencode_ber_d12`):
+     `reencode_der_wellformed`, `reencode_ber_wellformed`, `reencode_ber_d12_shape`):
      DER writes identifier(primitive) ++ shortest definite length ++ octets, whatever the
      segmentation; BER keeps the form (constructed: identifier(constructed) ++ definite length of
      the captured octets ++ the captured octets); 2^32 octets or more make the length writer
@@ -74,8 +74,6 @@
     is the `skip_opt` state machine (C10, not importable when this was written) run under
     `capture`; `capture_run0` here reduces it to C10's statement about `skip_opt` on a source
     without frames.  Covered meanwhile by the differential check.
-  * BER re-encoding of a captured content that includes the enclosing end-of-contents octets is
-    NOT well-formed (`reencode_ber_d12`, known finding D12); hence `reencode_ber_wellformed_partial`.
   * the views on captured octets that are not well-formed (the iterator panics on them, see the
     example at the end); sources other than `SliceSource` for the decoding parts (C07).
 -/
@@ -160,7 +158,7 @@ theorem prim_accept_spec (m : Mode) (id : Ident) (c : Bytes) :
 
 /-- a constructed OCTET STRING is never accepted in DER, on any source -/
 theorem cons_der_reject (fuel : Nat) (st : CState) (g : G0) :
-    runG0 (OS.fromContent fuel (.cons ⟨st, .der⟩)) g = .error .content := rfl
+    runG0 (OS.fromContent fuel (.cons ⟨st, .der, 0⟩)) g = .error .content := rfl
 
 /-- **C16 (views, primitive form).**  All views of `.prim c` present `c`; the segment iterator
     yields the one segment `c`, or nothing when `c` is empty. -/
@@ -730,8 +728,8 @@ theorem items_of_parseUntilEoc (f : Nat) (c : Bytes) (ts : List Tree)
 /-- Well-formed captured content of a constructed OCTET STRING, decidable for a given parse fuel `f`
     (any `f` larger than the nesting depth and the number of values will do):
     `captured` is, by the BER grammar, a sequence of values — or, for a value that was encoded with
-    the indefinite length form, a sequence of values followed by the end-of-contents octets that the
-    capture includes (finding D12) — all of which are OCTET STRING values (universal 4), primitive or
+    the indefinite length form, a sequence of values followed by the end-of-contents octets (what the
+    capture held before the repair of D12; the views tolerate it) — all of which are OCTET STRING values (universal 4), primitive or
     constructed from such values to any depth.  Returns the trees. -/
 def wfTrees (f : Nat) (captured : Bytes) : Option (List Tree) :=
   match parseAll .ber f captured with
@@ -1187,14 +1185,13 @@ theorem reencode_der_wellformed (os : OS) (x : Bytes) (h : os.octets = .ok x) (h
   simp only [parseValue, hi, hd, hl, hd2]
   simp [isEocIdent]
 
-/-- **C16 (BER re-encoding is well-formed, same content) — partial.**  With the OCTET STRING tag,
-    the BER output for a constructed value whose captured octets `c` parse as a sequence of values
-    `ts` is one constructed definite-length universal-4 value with exactly these kids, hence (if
-    they are OCTET STRING values) with the same content.
-    Missing for the full claim: captured octets that include the enclosing value's end-of-contents
-    octets (finding D12, see `reencode_ber_d12` below) are written verbatim and the output is then
-    NOT a well-formed encoding. -/
-theorem reencode_ber_wellformed_partial (c : Bytes) (hsz : c.length < 2 ^ 32) (f : Nat) (ts : List Tree)
+/-- **C16 (BER re-encoding is well-formed, same content).**  With the OCTET STRING tag, the BER
+    output for a constructed value whose captured octets `c` parse as a sequence of values `ts` is
+    one constructed definite-length universal-4 value with exactly these kids, hence (if they are
+    OCTET STRING values) with the same content.  Every constructed value the decoder accepts in BER
+    satisfies the hypothesis (`C16b.ber_accept_reencode`; before the repair of D12 a value decoded
+    from the indefinite form did not, see `reencode_ber_d12_shape`). -/
+theorem reencode_ber_wellformed (c : Bytes) (hsz : c.length < 2 ^ 32) (f : Nat) (ts : List Tree)
     (hp : parseAll .ber f c = some ts) (rest : Bytes) :
     ∃ out, Enc.write .ber (.octetString Tag.OCTET_STRING (.cons c)) = .ok out ∧
       parseValue .ber (f + 1) (out ++ rest) = some (.cons ⟨0, true, 4⟩ false ts, rest) ∧
@@ -1262,11 +1259,13 @@ theorem nocap_cerLoop : ∀ (fuel : Nat) (c : Cons) (short : Bool), NoCap (OS.ce
       exact ih _ _
 
 /-- whenever the constructed form is accepted (`runG`, the layer the test driver runs), the value
-    is `.cons bytes` where `bytes` is exactly the `k` octets of the source that were advanced over,
-    the source continues right behind them, and the enclosing limit is reduced by `k` -/
+    is `.cons bytes` where `bytes` are the first `j` of the `k` octets of the source that were
+    advanced over (all of them, unless the end-of-contents marker of the value was read: then
+    without it), the source continues right behind the `k` octets, and the enclosing limit is
+    reduced by `k` -/
 theorem cons_accept_captures_consumed (fuel : Nat) (c : Cons) (g g' : G) (os : OS) (content' : Content)
     (h : runG (OS.fromContent fuel (.cons c)) g = .ok ((os, content'), g')) :
-    ∃ k, k ≤ g.data.length ∧ os = .cons (g.data.take k) ∧ g'.data = g.data.drop k ∧
+    ∃ k j, j ≤ k ∧ k ≤ g.data.length ∧ os = .cons (g.data.take j) ∧ g'.data = g.data.drop k ∧
       g'.limit = g.limit.map (· - k) := by
   cases hm : c.mode with
   | der => simp [OS.fromContent, hm] at h
@@ -1280,7 +1279,7 @@ theorem cons_accept_captures_consumed (fuel : Nat) (c : Cons) (g g' : G) (os : O
       obtain ⟨⟨rfl, _⟩, rfl⟩ := h
       obtain ⟨k, h1, h2, h3, h4, _⟩ := C11.capture_exact c _
         (fun c => C11.uses_of_nocap (nocap_berLoop fuel fuel c)) g bytes c' g1 hc
-      exact ⟨k, h1, by rw [h2], h3, h4⟩
+      exact ⟨k, _, Nat.sub_le _ _, h1, by rw [h2], h3, h4⟩
   | cer =>
     simp only [OS.fromContent, hm, OS.takeConstructedCer, runG_bind] at h
     cases hc : runG (capture c fun c => OS.cerLoop c fuel false) g with
@@ -1291,7 +1290,7 @@ theorem cons_accept_captures_consumed (fuel : Nat) (c : Cons) (g g' : G) (os : O
       obtain ⟨⟨rfl, _⟩, rfl⟩ := h
       obtain ⟨k, h1, h2, h3, h4, _⟩ := C11.capture_exact c _
         (fun c => C11.uses_of_nocap (nocap_cerLoop fuel c false)) g bytes c' g1 hc
-      exact ⟨k, h1, by rw [h2], h3, h4⟩
+      exact ⟨k, _, Nat.sub_le _ _, h1, by rw [h2], h3, h4⟩
 
 /-! ## capture on `runG0` -/
 
@@ -1371,6 +1370,7 @@ theorem step_framed (d : Bytes) (l : Option Nat) (f : Frame) (fs : List Frame) (
   | getLimit => simp [stepG0, framed_same]
   | setLimit l' => simp [stepG0, framed]
   | reqCapped n => simp [stepG0, hv, framed_same]
+  | getPos => simp [stepG0, framed_same]
 
 theorem step_unframed (d : Bytes) (l : Option Nat) (o : Op) (h1 : o ≠ .capBegin) (h2 : o ≠ .capEnd)
     (r : Resp) (g' : G0) (h : stepG0 ⟨d, l, []⟩ o = .ok (r, g')) :
@@ -1413,6 +1413,7 @@ theorem step_unframed (d : Bytes) (l : Option Nat) (o : Op) (h1 : o ≠ .capBegi
   | getLimit => exact same _ h
   | setLimit l' => simp [stepG0] at h; obtain ⟨_, rfl⟩ := h; exact ⟨rfl, 0, by omega, rfl⟩
   | reqCapped n => exact same _ h
+  | getPos => exact same _ h
 
 
 theorem framed_framed (f : Frame) (fs : List Frame) (d : Bytes) (k : Nat) (hk : k ≤ d.length) (g' : G0)
@@ -1484,11 +1485,12 @@ theorem capture_run0 (c : Cons) (op : Cons → Prog Cons) (hop : ∀ c, NoCap (o
       | .error e => .error e
       | .ok (c', g') =>
         let k := d.length - g'.data.length
+        let e := if c'.state = c.state then 0 else c'.eoc
         match l with
         | some lim =>
           if lim < k then .error (.panic "advanced past end of limit")
-          else .ok ((d.take k, { c with state := c'.state }), St g'.data (some (lim - k)))
-        | none => .ok ((d.take k, { c with state := c'.state }), St g'.data none) := by
+          else .ok ((d.take (k - e), { c with state := c'.state, eoc := c'.eoc }), St g'.data (some (lim - k)))
+        | none => .ok ((d.take (k - e), { c with state := c'.state, eoc := c'.eoc }), St g'.data none) := by
   unfold capture
   have hb : runG0 capBegin (St d l) = .ok ((), ⟨d, l, [{ buf := [], outer := l }]⟩) := by
     simp [capBegin, runG0, stepG0]
@@ -1503,12 +1505,19 @@ theorem capture_run0 (c : Cons) (op : Cons → Prog Cons) (hop : ∀ c, NoCap (o
     have hlen : d.length - g'.data.length = k := by rw [hd]; simp only [List.length_drop]; omega
     have hlt : (d.take k).length = k := by simp [List.length_take]; omega
     simp only [framed, hlen, List.nil_append]
+    have htk : ∀ x, List.take (k - x) (List.take k d) = List.take (k - x) d := by
+      intro x; rw [List.take_take]; congr 1; omega
     cases l with
-    | none => simp [capEnd, runG0, stepG0]
+    | none =>
+      by_cases hs : c'.state = c.state
+      · simp [capEnd, runG0, stepG0, hs]
+      · simp [capEnd, runG0, stepG0, hs, hlt, htk]
     | some lim =>
       by_cases hl : lim < k
       · simp [capEnd, runG0, stepG0, hlt, hl]
-      · simp [capEnd, runG0, stepG0, hlt, hl]
+      · by_cases hs : c'.state = c.state
+        · simp [capEnd, runG0, stepG0, hlt, hl, hs]
+        · simp [capEnd, runG0, stepG0, hlt, hl, hs, htk]
 
 
 /-! ## C16, acceptance of the constructed form in CER -/
@@ -1546,7 +1555,7 @@ theorem cerClosure_run (short : Bool) (m : Mode) (data : Bytes) (len : Nat) :
         simp [h3, this]
 
 /-- the constructed value being read in CER: indefinite -/
-abbrev cI : Cons := ⟨.indefinite, .cer⟩
+abbrev cI : Cons := ⟨.indefinite, .cer, 0⟩
 
 /-- the next segment at the front of `d`, by the reference header readers: `none` = no OCTET STRING
     identifier there (end of the segments); `some (segment, is short, what follows)` -/
@@ -2484,8 +2493,8 @@ theorem cons_cer_accept_content (fuel : Nat) (d : Bytes) (os : OS) (ct : Content
 
 /-! ## non-vacuity -/
 
-/-- the content octets of `24 80 04 02 61 62 00 00` as the BER capture records them (the trailing
-    end-of-contents octets of the enclosing indefinite value are included, finding D12) -/
+/-- the content octets of `24 80 04 02 61 62 00 00` as the BER capture records them (with the trailing
+    end-of-contents octets of the enclosing indefinite value, the pre-repair shape of D12) -/
 def ex1 : Bytes := [0x04, 0x02, 0x61, 0x62, 0x00, 0x00]
 theorem ex1_wf : wfTrees 5 ex1 = some [.prim ⟨0, false, 4⟩ [0x61, 0x62]] := by rfl
 example : OS.octets (.cons ex1) = .ok [0x61, 0x62] := (views_eq_concat 5 ex1 _ ex1_wf).2.1
@@ -2530,15 +2539,20 @@ example : ∃ s', OSS.request (OSS.new (.cons ex2)) 100 = .ok (2, s') ∧ s'.cur
     request_all _ [0x61, 0x62] 100 (new_inv_cons ex2 _ (items_of_wf 5 ex2 _ ex2_wf)) (by decide)
   ⟨s', h1, h2⟩
 
-/-- **D12 (known finding).**  The BER capture of a value encoded with the indefinite form includes
-    the end-of-contents octets; the BER re-encoding writes them inside a definite-length value, and
-    the result is not a well-formed encoding (at any fuel up to the one shown; the stray `00 00`
-    is rejected as a value).  This is why `reencode_ber_wellformed_partial` needs `parseAll`. -/
-theorem reencode_ber_d12 :
+/-- **The witness of the repaired defect D12.**  Had the BER capture of a value encoded with the
+    indefinite form included the end-of-contents octets (`ex1`, as it did before the repair), the BER
+    re-encoding would have written them inside a definite-length value and the result would not be a
+    well-formed encoding.  The capture now holds the values only (`C11b.capture_all_indef_values`,
+    `C16b.ber_indef_run`) and re-encodes as a well-formed value of the same content
+    (`C16b.ber_accept_reencode`). -/
+theorem reencode_ber_d12_shape :
     Enc.write .ber (.octetString Tag.OCTET_STRING (.cons ex1)) =
       .ok [0x24, 0x06, 0x04, 0x02, 0x61, 0x62, 0x00, 0x00] ∧
     parseValue .ber 8 [0x24, 0x06, 0x04, 0x02, 0x61, 0x62, 0x00, 0x00] = none ∧
-    OS.octets (.cons ex1) = .ok [0x61, 0x62] := ⟨by rfl, by rfl, by rfl⟩
+    Enc.write .ber (.octetString Tag.OCTET_STRING (.cons [0x04, 0x02, 0x61, 0x62])) =
+      .ok [0x24, 0x04, 0x04, 0x02, 0x61, 0x62] ∧
+    parseValue .ber 8 [0x24, 0x04, 0x04, 0x02, 0x61, 0x62] =
+      some (.cons ⟨0, true, 4⟩ false [.prim ⟨0, false, 4⟩ [0x61, 0x62]], []) := ⟨by rfl, by rfl, by rfl, by rfl⟩
 
 /-- CER, constructed: one segment, then the end-of-contents octets, then other data -/
 example : runG0 (fromContentChecked 5 (.cons cI)) (St [0x04, 0x02, 0x61, 0x62, 0x00, 0x00, 0xff] none) =
